@@ -276,7 +276,9 @@ impl Property for C17 {
                     while hi + 1 < items.len() && items[hi + 1].kind == it.kind {
                         hi += 1;
                     }
-                    (lo..=hi).any(|j| intersects(&ranges, lines_of(src, items[j].lo, items[j].hi)))
+                    // (the lines of the declarations proper: a selection that only touches the
+                    // attribute or doc-comment lines of a member leaves the group alone)
+                    (lo..=hi).any(|j| intersects(&ranges, lines_of(src, items[j].decl_lo, items[j].hi)))
                 };
                 if group_member_selected && !judge_known {
                     if !o.excluded.iter().any(|x| x.contains("reorder-group")) {
